@@ -233,6 +233,31 @@ def c07_worker(res: Result, i: int, n: int) -> None:
     res.coverage["distinct_streams"] = len(distinct)
 
 
+def _type_shape(v: object) -> object:
+    """The exact types of a decoded value, recursively (dataclass fields, tuple items)."""
+    import dataclasses as _dc
+
+    if _dc.is_dataclass(v) and not isinstance(v, type):
+        return (type(v).__qualname__, tuple((f.name, _type_shape(getattr(v, f.name))) for f in _dc.fields(v)))
+    if isinstance(v, (tuple, list)):
+        return (type(v).__name__, tuple(_type_shape(x) for x in v))
+    return type(v).__module__ + "." + type(v).__qualname__
+
+
+def _first_shape_diff(a: object, b: object, path: str = "") -> str:
+    if a == b:
+        return ""
+    if isinstance(a, tuple) and isinstance(b, tuple) and len(a) == 2 and len(b) == 2 and a[0] == b[0] and isinstance(a[1], tuple) and isinstance(b[1], tuple) and len(a[1]) == len(b[1]):
+        for k, (x, y) in enumerate(zip(a[1], b[1])):
+            if x != y:
+                if isinstance(x, tuple) and len(x) == 2 and isinstance(x[0], str) and isinstance(y, tuple) and x[0] == y[0] and not isinstance(x[1], str):
+                    return _first_shape_diff(x[1], y[1], f"{path}.{x[0]}")
+                if isinstance(x, tuple) and len(x) == 2 and isinstance(x[0], str) and isinstance(y, tuple) and x[0] == y[0]:
+                    return f"{path}.{x[0]}: {x[1]} vs {y[1]}"
+                return _first_shape_diff(x, y, f"{path}[{k}]")
+    return f"{path or '<value>'}: {a if isinstance(a, str) else a[0]} vs {b if isinstance(b, str) else b[0]}"
+
+
 def _history(res: Result, h: int, payloads: list, loop, pairs_seen: set, distinct: set) -> None:  # noqa: ANN001
     from kio.serial import entity_reader, entity_writer
 
@@ -315,6 +340,7 @@ def _history(res: Result, h: int, payloads: list, loop, pairs_seen: set, distinc
             for part in ref_parts:
                 pos += len(part)
                 want_positions.append(pos)
+            baseline_shapes = None
             for kind in source_kinds:
                 if rng.random() < 0.3:
                     # history noise: an earlier connection delivered only part of a message
@@ -339,6 +365,17 @@ def _history(res: Result, h: int, payloads: list, loop, pairs_seen: set, distinc
                     res.violation(f"source-values:{kind}",
                                   f"{kind} source: message #{k} ({walk.class_path(msgs[k][0])}) decoded to a different value",
                                   dict(case, source=kind, stream=expected, index=k, decoded=repr(values[k])[:1500]))
+                # "the values returned do not depend on the kind of source": not only ==, which calls a bytearray equal to bytes - the same
+                # types, all the way down, as the same messages read from the first source kind
+                shape = [_type_shape(v) for v in values]
+                if baseline_shapes is None:
+                    baseline_shapes = (kind, shape)
+                elif shape != baseline_shapes[1]:
+                    k = next((j for j, (a, b) in enumerate(zip(shape, baseline_shapes[1])) if a != b), -1)
+                    res.violation(f"source-value-types:{kind}",
+                                  f"{kind} source: message #{k} ({walk.class_path(msgs[k][0])}) decoded to values of other types than from the {baseline_shapes[0]} source: "
+                                  f"{_first_shape_diff(shape[k], baseline_shapes[1][k])}",
+                                  dict(case, source=kind, stream=expected, index=k))
                 if positions is not None and positions != want_positions:
                     res.violation(f"source-position:{kind}",
                                   f"{kind} source: positions after each message {positions[:6]}.. differ from the encodings' boundaries {want_positions[:6]}..",
